@@ -377,7 +377,8 @@ main(void)
         /* stream 0 moves to the third camera/storage; optionally stream 1 takes over the devices
          * stream 0 has just released (configure handles the streams in order) */
         fill_props(0, 2, 2, 1, 0);
-        if (two && P2B(6)) fill_props(1, 0, 0, 1, 0);
+        if (two && P2B(8)) { /* stream 1 is no longer requested: it keeps its devices until shutdown closes them */ }
+        else if (two && P2B(6)) fill_props(1, 0, 0, 1, 0);
         else if (two) fill_props(1, 1, 1, 1, 0);
         VASSERT(acquire_configure(rt, &props) == AcquireStatus_Ok, "re-configure failed");
         STO[2].expect_cam = 2; STO[0].expect_cam = 0; STO[1].expect_cam = 1;
